@@ -357,7 +357,8 @@ def check(ctx: Ctx) -> None:
     stubs = {"array": lambda x, *a, **k: list(x), "DataSet": lambda f, Z, **k: ("DataSet", list(f), list(Z)), "complex": lambda re_, im_: (re_, im_)}
     n_worlds = 0
     witness = None
-    for n in range(1, 7):
+    nmax = 7 if ctx.tier == "thorough" else 6
+    for n in range(1, nmax + 1):
         for p in permutations(range(n)):
             n_worlds += 1
             fr = [float(10 ** x) for x in p]
@@ -375,7 +376,7 @@ def check(ctx: Ctx) -> None:
             if got != want and witness is None:
                 same_f = not isinstance(got, str) and [g[0] for g in got] == [w[0] for w in want]
                 witness = (p, got if isinstance(got, str) else ([g[1] for g in got] if same_f else [g[0] for g in got]), [w[1] for w in want] if same_f else [w[0] for w in want])
-    ctx.instance("R6.3", f"_split_sweeps interpreted on all {n_worlds} orderings of 1..6 points: one data set per maximal run in the direction of the first two points, values aligned")
+    ctx.instance("R6.3", f"_split_sweeps interpreted on all {n_worlds} orderings of 1..{nmax} points: one data set per maximal run in the direction of the first two points, values aligned")
     if witness is None:
         ctx.ok()
     else:
